@@ -221,10 +221,10 @@ def r3_tail_fallback(cx):
     T = rev[0][0]
     ui, ut = U[0]
     # switches on the discriminant of U's result (directly or after Try::branch)
-    res_locals = b.forward_locals({ut["dest"]["l"]}, through_calls=False)
+    res_locals = b.whole_copies({ut["dest"]["l"]})
     for i, t in b.calls(r"Try>::branch$"):
         if op_base_local(t["args"][0]) in res_locals:
-            res_locals |= b.forward_locals({t["dest"]["l"]}, through_calls=False)
+            res_locals |= b.whole_copies({t["dest"]["l"]})
     err_succ = []
     for s in range(b.n):
         t = b.term(s)
